@@ -159,8 +159,13 @@ func (c *Ctx) pfbFraming(info *types.Info) {
 		return f.Name() != "Write" || f.Signature.Recv() == nil || !strings.Contains(f.String(), "Font")
 	}
 	ev.noInline = func(f *ssa.Function) bool {
-		// only unexported helpers without receiver are evaluated in place (e.g. a segment writer)
-		return f.Signature.Recv() != nil || f.Object() == nil || f.Object().Exported() || c.isFn(f, "type1", "", "newEExecWriter")
+		// only unexported helpers are evaluated in place (e.g. a segment writer, with or without a
+		// receiver, or a function literal handed to one); exported methods (the writers' Write and
+		// Close) are modelled
+		if f.Object() == nil {
+			return f.Parent() == nil
+		}
+		return f.Object().Exported() || c.isFn(f, "type1", "", "newEExecWriter")
 	}
 	ev.load = func(ld *ssa.UnOp, addr sv) (sv, bool) {
 		if strings.HasSuffix(addr.s, ".Format") {
@@ -227,6 +232,9 @@ func (c *Ctx) pfbFraming(info *types.Info) {
 		}
 		// a validation of the font (a method of the font without further arguments that returns
 		// only an error): the table describes a font the writer accepts
+		if call == nil {
+			return sv{}, false
+		}
 		if sc := call.Common().StaticCallee(); sc != nil && c.inModule(sc) && sc.Signature.Recv() != nil && sc.Signature.Params().Len() == 0 && returnsError(sc) && sc.Signature.Results().Len() == 1 {
 			return sv{k: svNil}, true
 		}
